@@ -81,6 +81,8 @@ def do_op(env, drv, op, sc, ref):
                 raise UserError("user code failed")
         op["_entered"] = False
         return harness.call(sim, f)
+    if k == "datalog":
+        return harness.call(sim, drv.get_datalog_queue, op["n"], op["q"])
     if k == "idle":
         return harness.call(sim, sim.advance, op["us"])
     raise ValueError(k)
@@ -366,7 +368,7 @@ def gen_base(r, tier, prop):
     if tags:
         kinds += ["read", "read", "write"]
     if dcls == "SLCDriver":
-        kinds = ["open", "close", "slc_read", "slc_read", "slc_write", "with_ok", "with_raise", "idle", "generic_u"]
+        kinds = ["open", "close", "slc_read", "slc_read", "slc_write", "with_ok", "with_raise", "idle", "generic_u", "slc_datalog"]
         sc["epilogue_text"] = "N7:1"
         sc["epilogue_slc"] = True
     state_open = False
@@ -397,6 +399,8 @@ def gen_base(r, tier, prop):
             ops.append({"id": oid, "kind": "read", "text": r.choice(("N7:0", "N7:3{4}", "B3/9", "N7:19"))})
         elif k == "slc_write":
             ops.append({"id": oid, "kind": "write", "text": r.choice(("N7:0", "N7:5", "N7:19")), "value": r.randrange(-32768, 32768)})
+        elif k == "slc_datalog":
+            ops.append({"id": oid, "kind": "datalog", "n": r.choice((1, 2, 3, 5)), "q": r.choice((0, 0, 1, 7))})
         elif k.startswith("generic"):
             mode = {"generic_c": "connected", "generic_u": "unconnected", "generic_us": "unconnected_send"}[k]
             if mode == "unconnected_send" and (dcls == "CIPDriver" or sc["world"]["layout"] == "micro800"):
